@@ -35,6 +35,14 @@ class Verifier(Stmts):
         if (isinstance(t, ListT) and t.elem == ANY) or (isinstance(t, SetT) and t.elem == ANY) or (isinstance(t, DictT) and t.k == ANY):
             raise Unsupported('mutation of an untyped empty literal at %s: declare the variable/field type in the contract' % self.loc(node))
 
+    # bytearray: a BYTES value living in a heap cell
+    def bm_bytes_extend(self, st, r, args, kw, node):
+        if r.ref is None: raise Unsupported('extend on an immutable bytes value at %s' % self.loc(node))
+        a = args[0]
+        if a.t != BYTES: raise Unsupported('bytearray.extend with %s at %s' % (a.t, self.loc(node)))
+        self.setcell(st, r, z3.Concat(self.deref(st, r), self.deref(st, a)))
+        return [(st, mk_none())]
+
     # list
     def bm_list_append(self, st, r, args, kw, node):
         self.need_typed(r, node); t = r.t; z = self.deref(st, r); n = list_len(t, z)
@@ -196,7 +204,8 @@ class Verifier(Stmts):
         t = r.t
         if t.k == ANY: return [(st, V(IterT(), []))]
         D = self.deref(st, r); ks = self.perm_of_keys(st, t, D)
-        return [(st, V(IterT(), self.items_of(st, t, D, ks)))]
+        v = V(IterT(), self.items_of(st, t, D, ks)); v.src = ('dict-items', t, D)       # lets sorted() hooks see the dictionary
+        return [(st, v)]
     def items_of(self, st, t, D, ks):
         tt = TupleT(t.k, t.v); lt = ListT(tt); L = fresh_z(lt, 'items'); i = z3.Int(fresh_name('i'))
         klt = ks.t
